@@ -2244,6 +2244,20 @@ def subst_fold(t, mapping):
             return ('ifexp', c, go(x[2]), go(x[3]))
         if k == 'sub':
             return Interp.subscript(it, go(x[1]), go(x[2]))
+        if k == 'call' and kind(x[2]) == 'attr' and not x[4] and \
+                x[2][2] in _CONST_METHODS:
+            recv = go(x[2][1])
+            args = tuple(go(a) for a in x[3])
+            okr, pr = try_py(recv)
+            oks = [try_py(a) for a in args]
+            if okr and isinstance(pr, (str, bytes)) and \
+                    all(o for o, _ in oks):
+                try:
+                    return from_py(getattr(pr, x[2][2])(
+                        *[v for _, v in oks]))
+                except Exception:
+                    pass
+            return ('call', x[1], ('attr', recv, x[2][2]), args, x[4], x[5])
         if k == 'call' and kind(x[2]) == 'builtin' and \
                 x[2][1] in _PURE_BUILTINS and not x[4]:
             args = tuple(go(a) for a in x[3])
